@@ -78,6 +78,23 @@ class Worker:
             raise WorkerError(res)
         return res
 
+    # raw protocol access (process actors: a rank running in this interpreter
+    # talks to the orchestrator in the middle of a command)
+    def send_cmd(self, cmd, **kwargs):
+        self.write_msg((cmd, kwargs))
+        self.ncalls += 1
+
+    def write_msg(self, obj):
+        blob = pickle.dumps(obj, protocol=pickle.HIGHEST_PROTOCOL)
+        try:
+            self.proc.stdin.write(struct.pack("<Q", len(blob)) + blob)
+            self.proc.stdin.flush()
+        except BrokenPipeError:
+            raise WorkerDied("broken pipe") from None
+
+    def read_msg(self):
+        return self._recv()
+
     def kill(self):
         """crash: the interpreter and everything in it is gone"""
         try:
